@@ -6,6 +6,7 @@
 #include <cstdio>
 #include <cstdlib>
 #include <cstring>
+#include <functional>
 #include <memory>
 #include <sstream>
 #include <stdexcept>
@@ -99,5 +100,7 @@ inline int TI(int slot) { logc(4, slot, 0, 0); return 40 + slot; }
 // generated: one source line per (slot, shape); returns false for an unknown pair
 bool make_expectation(int slot, int shape);
 bool make_monitor(int k, int o, int nq, int q1, int q2);
+bool make_scoped(int slot, int shape, std::function<void()> const& created, std::function<void()> const& body);
+bool make_scoped_monitor(int k, int o, int nq, int q1, int q2, std::function<void()> const& created, std::function<void()> const& body);
 
 }  // namespace drv
